@@ -11,5 +11,6 @@ def go(test, q, t, **kw):
 
 
 CHECKS = {
+    "C01": {"level": E, "units": [go("TestC01", 8000, 400000)]},
     "C02": {"level": E, "units": [go("TestC02", 1600, 60000)]},
 }
